@@ -162,8 +162,11 @@ def main():
         d = os.path.join(VERIF, "seeded", keep)
         os.makedirs(d, exist_ok=True)
         open(os.path.join(d, "patch.diff"), "w").write(res["effective_patch"])
-        shutil.copy(demo, os.path.join(d, "demo_test.go"))
+        if os.path.abspath(demo) != os.path.abspath(os.path.join(d, "demo_test.go")):
+            shutil.copy(demo, os.path.join(d, "demo_test.go"))
         notes = os.path.join(mdir, "notes.md")
+        if os.path.exists(notes) and os.path.abspath(notes) != os.path.abspath(os.path.join(d, "notes.md")):
+            shutil.copy(notes, os.path.join(d, "notes.md"))
         needs = open(notes, errors="replace").read()[:6000] if os.path.exists(notes) else ""
         meta = {
             "id": keep, "breaks_property": prop, "origin": "independent sub-agent given only the property text and a scratch worktree",
